@@ -52,7 +52,7 @@ def _coord(rng, force_mono=False):
     if kind == "time":
         t, m = _table(rng, rng.randrange(1, 9), mono)
         return {"kind": "time", "tables": [t], "mono": [m], "ref": rng.random() < 0.5, "scale": rng.choice(["utc", "utc", "tai", "tt"]),
-                "names": ["tname"] if rng.random() < 0.5 else None, "ptypes": None}
+                "names": ["tname"] if rng.random() < 0.5 else None, "ptypes": [f"custom:t{rng.randrange(100)}"] if rng.random() < 0.4 else None}
     n = rng.randrange(1, 7)
     lon, m1 = _table(rng, n, mono or rng.choice(["inc", "dec"]))
     lat, m2 = _table(rng, n, mono)
@@ -89,7 +89,7 @@ def gen(tier, rng):
     cases = []
     N = 2600 if tier == "quick" else 50000
     for _ in range(N):
-        probe = rng.choice(["p2w", "p2w", "w2p", "slice", "slice", "interp", "resample", "meta", "chain", "chain", "sky2d"])
+        probe = rng.choice(["p2w", "p2w", "w2p", "slice", "slice", "interp", "resample", "meta", "chain", "chain", "sky2d", "joinslice"])
         case = {"probe": probe}
         if probe in ("p2w", "interp", "meta"):
             coords = [_coord(rng) for _ in range(rng.choice([1, 1, 2, 3]))]
@@ -162,6 +162,23 @@ def gen(tier, rng):
                 case["grids"] = [sorted([rng.randrange(0, 4 * (m - 1) + 1), 4] for _ in range(glen)) if m > 1 else [[0, 1]] * glen for m in lens]
             else:
                 case["pix"] = [[rng.randrange(0, 4 * (m - 1) + 1), 4] if m > 1 else [0, 1] for m in lens]
+        elif probe == "joinslice":
+            # slice a join of 2-3 coordinates: one item per array dimension, step-1 slices and integers that drop whole
+            # coordinates only (a meshed SkyCoord never gets an integer: known finding)
+            coords = [_coord(rng) for _ in range(rng.choice([2, 2, 3]))]
+            case["coords"] = coords
+            items = []
+            for c in coords:
+                nd_c = 1 if (c["kind"] == "sky" and not c["mesh"]) else _pix_dims(c)
+                whole_int = c["kind"] in ("q", "time") and nd_c == 1 and rng.random() < 0.25
+                for d in range(nd_c):
+                    n = _len_of_dim(c, d)
+                    if whole_int:
+                        items.append(rng.randrange(-n, n))
+                    else:
+                        a = rng.randrange(0, n)
+                        items.append(["s", rng.choice([a, a - n]) if a else None, rng.choice([None, n, n + 2] + list(range(a + 1, n + 1))), None])
+            case["items"] = items
         elif probe == "sky2d":
             n0, n1 = rng.randrange(2, 5), rng.randrange(2, 5)
             case["lon"] = [[[400 + 8 * i + rng.randrange(0, 4), 4] for j in range(n1)] for i in range(n0)]
@@ -208,7 +225,8 @@ def _build(c):
     if c["kind"] == "time":
         ref = Time(REF, scale=c.get("scale", "utc"))
         tt = ref + vals[0] * u.s
-        return TimeTableCoordinate(tt, names=c["names"], reference_time=ref if (c["ref"] or vals[0][0] != 0) else None)
+        return TimeTableCoordinate(tt, names=c["names"], physical_types=c.get("ptypes"),
+                                   reference_time=ref if (c["ref"] or vals[0][0] != 0) else None)
     return SkyCoordTableCoordinate(SkyCoord(vals[0] * u.deg, vals[1] * u.deg), mesh=c["mesh"])
 
 
@@ -274,7 +292,7 @@ def run(case):
     probe = case["probe"]
     why, out, finding = [], {}, None
     try:
-        if probe in ("p2w", "interp", "meta", "w2p", "slice", "chain"):
+        if probe in ("p2w", "interp", "meta", "w2p", "slice", "chain", "joinslice"):
             tcs = [_build(c) for c in case["coords"]]
             joined = reduce(lambda a, b: a & b, tcs) if len(tcs) > 1 else tcs[0]
         if probe == "p2w":
@@ -376,6 +394,13 @@ def run(case):
                 if not why and not any(kinds) and all(np.ndim(e) == 1 and len(e) >= 1 for e in exp):
                     try:
                         w = r.wcs
+                        # ... and still declares the names / physical types / units it was given
+                        if c.get("names") and list(w.world_axis_names) != list(c["names"]):
+                            why.append(f"sliced coordinate declares names {list(w.world_axis_names)}, it was given {c['names']}")
+                        if c.get("ptypes") and list(w.world_axis_physical_types) != list(c["ptypes"]):
+                            why.append(f"sliced coordinate declares physical types {list(w.world_axis_physical_types)}, it was given {c['ptypes']}")
+                        if c["kind"] == "q" and [str(u.Unit(x)) for x in w.world_axis_units] != [str(u.Unit(c["unit"]))] * len(c["tables"]):
+                            why.append(f"sliced coordinate declares units {list(w.world_axis_units)}, its tables are in {c['unit']}")
                         npx = _pix_dims(c)
                         for k in range(max(len(e) for e in exp)):
                             pix = [min(k, len(exp[d if (c["kind"] != "sky" or c["mesh"]) else 0]) - 1) for d in range(npx)]
@@ -454,6 +479,27 @@ def run(case):
                 if not _close(got, exp, 1e-9):
                     why.append(f"slicing {first}: pixel {[float(x) for x in pix]} -> {got}, the sliced tables give {exp}")
                 out["vals"] = [_canon(v) for v in got]
+        elif probe == "joinslice":
+            items = [Q.dec_item(e) for e in case["items"]]
+            r = joined[tuple(items)]
+            kept = list(r._table_coords)
+            dropped = list(r._dropped_coords)
+            i = 0
+            for c in case["coords"]:
+                nd_c = 1 if (c["kind"] == "sky" and not c["mesh"]) else _pix_dims(c)
+                its = items[i:i + nd_c]
+                i += nd_c
+                tabs = [np.array([float(_fr(v)) for v in t]) for t in c["tables"]]
+                per = its if not (c["kind"] == "sky" and not c["mesh"]) else [its[0], its[0]]
+                exp = [t[it] for t, it in zip(tabs, per)]
+                part = dropped.pop(0) if all(np.ndim(e) == 0 for e in exp) else kept.pop(0)
+                got = _tables_of(part, c["kind"], c.get("scale", "utc"))
+                if len(got) != len(exp) or any(not _close(np.asarray(g), np.asarray(e)) for g, e in zip(got, exp)):
+                    why.append(f"joined coordinate sliced with {items}: member {c['kind']} holds {[np.asarray(g).tolist() for g in got]}, its sliced tables are {[np.asarray(e).tolist() for e in exp]}")
+                    break
+            if not why and (kept or dropped):
+                why.append("joined coordinate sliced: members left over that correspond to no source coordinate")
+            out = {}
         elif probe == "sky2d":
             from astropy.coordinates import SkyCoord
             from ndcube.extra_coords.table_coord import SkyCoordTableCoordinate
@@ -584,7 +630,7 @@ def coq_case(case, res):
     o = res["out"]
     probe = case["probe"]
     oq = lambda v: "None" if v is None else f"(Some {_cq(v)})"  # noqa
-    if o.get("crashed") or probe in ("meta", "sky2d"):
+    if o.get("crashed") or probe in ("meta", "sky2d", "joinslice"):
         return TRIV
     if probe == "chain":
         c = case["coords"][0]
